@@ -353,6 +353,9 @@ func (l *Linter) LintFiles(filepaths []string, project *Project) ([]*Error, erro
 			// Before entering goroutine, resolve project instance.
 			p, err := l.projects.At(w.path)
 			if err != nil {
+				// Do not leave goroutines and processes already started for the previous files
+				eg.Wait() //nolint:errcheck
+				proc.wait()
 				return nil, err
 			}
 			proj = p
@@ -384,9 +387,7 @@ func (l *Linter) LintFiles(filepaths []string, project *Project) ([]*Error, erro
 		})
 	}
 
-	if err := eg.Wait(); err != nil {
-		return nil, err
-	}
+	err := eg.Wait()
 
 	// Ensure that all processes finish. `proc.wait()` must be called after `eg.Wait()`.
 	// Calling `WaitGroup.Add` after `WaitGroup.Wait` can cause a race condition (specifically when
@@ -395,6 +396,10 @@ func (l *Linter) LintFiles(filepaths []string, project *Project) ([]*Error, erro
 	// After traversing all workflows, `proc.run()` is no longer called so `proc.wait()` can be
 	// called safely.
 	proc.wait()
+
+	if err != nil {
+		return nil, err // Return the error after all processes finished
+	}
 
 	total := 0
 	for i := range ws {
